@@ -240,7 +240,7 @@ PROPS["C08"] = dict(
 PROPS["C17"] = dict(
     level="fault_enumeration",
     technique="exhaustive single-fault enumeration: for every scenario, every allocation index k (through jwt_set_alloc) fails once; results compared call by call with the fault-free run",
-    level_text=("27 scenarios covering key loading (every kty, sets, bad keys, files), builders (HS256, RS256, EdDSA, ES256, none, "
+    level_text=("29 scenarios covering key loading (every kty, sets, bad keys, files), builders (HS256, RS256, EdDSA, ES256, none, "
                 "callbacks, all setter/getter types), and checkers (valid/expired/bad/wrong-alg/malformed/unsigned tokens, all key "
                 "types, key-selecting and token-mutating callbacks) are first run fault-free with a counting allocator; then for "
                 "every k = 1..N the k-th request returns NULL.  This is exactly the property's quantifier (any single allocation), "
